@@ -336,7 +336,9 @@ CasesC12(lazy) ==
            : c1 \in {"-1", "0", "2"}, c2 \in {"-2", "0", "1"}}
   \cup {CaseX(<<Single("l", L(<<S("a"), Body12 %% Single("$repeat", I(nc)), S("z")>>))>>, NoEnv, "neglist", Single("l", L(<<S("a"), S("z")>>))) : nc \in {"-1", "-2"}}
   \cup {Case(<<L(<<Single("$repeat", I("-1")), S("$repeat")>>)>>, NoEnv, "negcount") : dummy \in {1}}
-  \cup {Case(<<Body12 %% Single("$repeat", v)>>, NoEnv, "badcount") : v \in {S("2"), F("1.5"), True, L(<<I("1")>>), Mk2("x", I("1"), "y", S("2"))}}
+  \cup {Case(<<Body12 %% Single("$repeat", v)>>, NoEnv, "badcount") : v \in {S("2"), F("1.5"), True, L(<<I("1")>>), Mk2("x", I("1"), "y", S("2")),
+                                           (* a bad count is an error also when an earlier name already makes the product empty *)
+                                           Mk2("x", I("0"), "y", S("2")), Mk2("x", I("0"), "y", F("1.5")), Mk2("x", I("-1"), "y", True), Mk2("x", S("2"), "y", I("0"))}}
   \cup {Case(<<Single("l", L(<<Body12 %% Single("$repeat", v)>>))>>, NoEnv, "badnested") : v \in {S("2"), F("1.5"), Single("x", I("1"))}}
 
 Range0(n) == [i \in 1..n |-> i - 1]
@@ -394,7 +396,7 @@ LawC12(cs) ==
 Lits == {"", "a", "}", ":", " ", "x}y", "p:q ", "\""}
 Refs13 == {"n", "s", "m.f", "$env:V", "$env:E", "$env:UNSET", "nope", "m.nope"}
 Doc13(tmpl) == Mk4("n", I("42"), "s", S("str"), "m", Single("f", F("1.5")), "t", S(tmpl))
-Env13 == [V |-> "val", E |-> "", N |-> "007"]
+Env13 == [V |-> "val", E |-> "", N |-> "007", Q |-> "a=b=c", R |-> "=lead"]
 Value13(r) == CASE r = "n" -> "42" [] r = "s" -> "str" [] r = "m.f" -> "1.5"
                 [] r = "$env:V" -> "val" [] r = "$env:E" -> "" [] OTHER -> "?"
 Known13(r) == r \in {"n", "s", "m.f", "$env:V", "$env:E"}
@@ -415,7 +417,7 @@ CasesC13(lazy) ==
                     <<"$\"{{n}\"", "", TRUE>>, <<"$\"{{n}}\"", "", TRUE>>, <<"$\"a{{n}b\"", "", TRUE>>,
                     <<"$\"{{n}\"", "", FALSE>>, <<"$\"{{n}}\"", "", FALSE>>, <<"$\"{{$env:V}\"", "", FALSE>>,
                     <<"$\"{n}}\"", "42}", FALSE>>, <<"$\"}{n}{\"", "}42{", FALSE>> }}
-  \cup {Case(<<Mk2("t", S("$env:" \o v), "$env:V", I("1"))>>, Env13, "env") : v \in {"V", "E", "N", "UNSET"}}
+  \cup {Case(<<Mk2("t", S("$env:" \o v), "$env:V", I("1"))>>, Env13, "env") : v \in {"V", "E", "N", "UNSET", "Q", "R"}}
   \cup {Case(<<Mk3("a", S("$\"{b}\""), "b", S("$\"<{n}>\""), "n", I("5"))>>, Env13, "nested") : x \in {1}}
 
 LawC13(cs) ==
